@@ -25,16 +25,17 @@ type Result struct {
 
 // Proc is one long-lived incremental solver process with a fixed per-query cap.
 type Proc struct {
-	Name    string
-	argv    []string
-	capMs   int
-	cmd     *exec.Cmd
-	in      io.WriteCloser
-	out     *bufio.Reader
-	lines   chan string
-	mu      sync.Mutex
-	Queries int
-	Time    time.Duration
+	Name       string
+	argv       []string
+	capMs      int
+	cmd        *exec.Cmd
+	in         io.WriteCloser
+	out        *bufio.Reader
+	lines      chan string
+	mu         sync.Mutex
+	Queries    int
+	Time       time.Duration
+	sinceStart int
 }
 
 const sentinel = "@@DONE@@"
@@ -135,7 +136,13 @@ func (p *Proc) Check(sc *Script, wantModel bool) (res Result) {
 		res.Note = "encode: " + sc.Err.Error()
 		return res
 	}
+	if p.cmd != nil && p.sinceStart >= 250 {
+		// long-lived incremental processes slow down as push/pop frames pile
+		// up internal state (measured with cvc5): restart periodically
+		p.Kill()
+	}
 	if p.cmd == nil {
+		p.sinceStart = 0
 		if err := p.start(); err != nil {
 			res.Note = "start: " + err.Error()
 			return res
@@ -144,8 +151,9 @@ func (p *Proc) Check(sc *Script, wantModel bool) (res Result) {
 	if d := os.Getenv("SYMGO_DUMP"); d != "" {
 		f, _ := os.OpenFile(d, os.O_APPEND|os.O_CREATE|os.O_WRONLY, 0644)
 		fmt.Fprintf(f, "; ---- %s\n%s", p.Name, sc.Text)
-		defer func() { fmt.Fprintf(f, "; => %s %v\n", res.Status, res.Dur); f.Close() }()
+		defer func() { fmt.Fprintf(f, "; => %s %v\n", res.Status, time.Since(t0)); f.Close() }()
 	}
+	p.sinceStart++
 	script := "(push 1)\n" + sc.Text + "(check-sat)\n(echo \"" + sentinel + "\")\n"
 	if _, err := io.WriteString(p.in, script); err != nil {
 		p.Kill()
@@ -368,7 +376,7 @@ func (e *sexp) String() string {
 func parseModel(s string, getNames map[string]string) map[string]string {
 	rev := map[string]string{}
 	for vn, sn := range getNames {
-		rev[sn] = vn
+		rev[strings.Trim(sn, "|")] = vn
 	}
 	m := map[string]string{}
 	for _, top := range parseSexps(s) {
@@ -379,7 +387,7 @@ func parseModel(s string, getNames map[string]string) map[string]string {
 			if pair.list == nil || len(pair.list) != 2 {
 				continue
 			}
-			if vn, ok := rev[pair.list[0].String()]; ok {
+			if vn, ok := rev[strings.Trim(pair.list[0].String(), "|")]; ok {
 				m[vn] = pair.list[1].String()
 			}
 		}
